@@ -1,6 +1,7 @@
 (* C04 model driver: evaluates the extracted ABFModel at floats on case lines from stdin.
    Case:  ABF nd lower*nd width*nd nx*nd periodic*nd full min update cap maxf*nd szd same sub*nd hidej other*nd scaled sfac*(prod nx)
-              ndata (cnt0*(prod nx) grad0*(prod nx * nd))*ndata nevents event*nevents
+              tsf late ndata (cnt0*(prod nx) grad0*(prod nx * nd))*ndata nevents event*nevents
+          late = number of steps the engine made before the bias was defined (0: defined at the start)
           event = 0 x*nd e*nd o*nd j*nd boundary apply      (a step)
                 | 1 cnt*(prod nx) grad*(prod nx * nd)       (restart: state file loaded into a new instance)
                 | 2 cnt*(prod nx) grad*(prod nx * nd)       (reload: state file loaded into the running instance)
@@ -57,6 +58,8 @@ let () =
                      c_update = update; c_cap = cap; c_maxf = maxf; c_szd = szd; c_same_step = same;
                      c_subtract = sub; c_hidej = hidej; c_other = other; c_scaled = scaled; c_sfac = sfac } in
            (* data read through inputPrefix *)
+           let tsf = ni () in
+           let late = ni () in
            let ndata = ni () in
            let addr_of (ix : z list) : int =
              let rec addr a ixs nxs = match ixs, nxs with
@@ -94,7 +97,8 @@ let () =
                (String.concat " " (List.map (fun ix ->
                     fs (List.init nd (fun k -> grad_out fops cnt sum (List.map z_of_int ix) (nat_of_int k)))) ixs)) in
            let buf = Buffer.create 4096 in
-           let s0 = ref (abf_init_data fops c datasets) in
+           let start = if late > 0 then abf_init_late fops c (z_of_int (late - 1)) else abf_init fops c in
+           let s0 = ref (List.fold_left (abf_add_data fops c) start datasets) in
            let s = ref !s0 in
            let outs = ref [] in
            let seg = ref [] in
@@ -103,7 +107,7 @@ let () =
                s := abf_event_apply fops c !s ev; s0 := !s; outs := []; seg := []
              | EvStep i ->
                seg := i :: !seg;
-               let (s1, o) = abf_step fops c !s i in
+               let (s1, o) = if tsf > 1 then abf_mstep fops c (z_of_int tsf) !s i else abf_step fops c !s i in
                (* The grids of the model are functions idx -> value, each step wrapping the previous one in a
                   closure: evaluate them once on the bins of the grid and continue with table look-ups
                   (same function on every index: outside the table the original closure answers). *)
